@@ -74,10 +74,14 @@ DETERMINISM_SCENARIOS = ["staletail", "general", "election", "lease", "durabilit
 MASK_SCOPE = ["sole_voter_crash"]
 
 
-def B(name, scenario, quick, thorough, masks=None, sole_voter_crash=False):
+def B(name, scenario, quick, thorough, masks=None, sole_voter_crash=False, engine=None):
     m = list(MASK_OPEN if masks is None else masks)
-    return {"name": name, "scenario": scenario, "quick": quick, "thorough": thorough,
-            "masks": m + ([] if sole_voter_crash else MASK_SCOPE)}
+    b = {"name": name, "scenario": scenario, "quick": quick, "thorough": thorough,
+         "masks": m + ([] if sole_voter_crash else MASK_SCOPE)}
+    if engine:
+        b["engine"] = engine  # this batch runs on another engine than the property's main one
+        b["masks"] = []
+    return b
 
 
 PROPS = {
@@ -107,7 +111,8 @@ PROPS = {
     "C13": {"batches": [B("routing", "routing", 220, 2200), B("routing_exposed_snapshots", "routing", 60, 600, masks=["batch_promote"])]},
     "C14": {"batches": [B("general", "general", 140, 1400), B("election", "election", 100, 1000), B("deadline", "deadline", 40, 400)]},
     "C16": {"batches": [B("exposed_snapshot", "snapshot", 120, 1200, masks=["batch_promote"]),
-                        B("general_exposed", "general", 60, 600, masks=["batch_promote"])]},
+                        B("general_exposed", "general", 60, 600, masks=["batch_promote"]),
+                        B("engine_install_replay", "c16", 250, 2500, engine="smsim")]},
     "C18": {"engine": "logsim", "batches": [B("buffered_log_crash", "c18", 1500, 15000, masks=[])],
             "rule": "one evaluation = one generated operation plan (append / conflict-aware append from forking histories / purge / reset / "
                     "flush / wait / crash+reopen) on the real BufferedRaftLog with its IO task over SimStorageEngine; distinct = distinct "
